@@ -373,6 +373,10 @@ def attribute(case, message, bucket):
     return None
 
 
+# coverage-guided stage (atheris drives these Hypothesis shards, see vf/run.py): {tier: {shard kind: (shards, executions)}}
+CG = {'thorough': {'valid': (8, 2000), 'invalid': (4, 3000)}}
+
+
 def plan(tier, seed, scale=1.0):
     b = BOUNDS[tier]
     nv = max(24, int(b["valid_asts"] * scale))
